@@ -177,6 +177,7 @@ func c13R2(p *Prog, r *Report) {
 	}
 
 	c13R2d(p, r)
+	c13R2e(p, r)
 	c13R2f(p, r)
 }
 
